@@ -247,8 +247,19 @@ pub trait Translator {
             {
                 // get the entry index for the first/head block in the successor
                 let (block_entry, _) = block_indices[successor_address];
-                // check for duplicate edges
-                if control_flow_graph.edge(block_exit, block_entry).is_ok() {
+                // An edge between these blocks may already exist (a manual
+                // edge, or a conditional branch whose target is also its
+                // fall-through address). The edge is then taken when either
+                // condition holds; dropping this successor would leave the
+                // block with guards that no longer cover every state.
+                if let Ok(edge) = control_flow_graph.edge_mut(block_exit, block_entry) {
+                    if let Some(existing) = edge.condition_mut() {
+                        let this = match successor_condition {
+                            Some(ref condition) => condition.clone(),
+                            None => il::expr_const(1, 1),
+                        };
+                        *existing = Expression::or(existing.clone(), this)?;
+                    }
                     continue;
                 }
                 match successor_condition {
